@@ -112,7 +112,7 @@ def cases(draw):
     data = []
     for i in range(nd):
         holders = draw(st.lists(st.integers(0, nh - 1), min_size=1, max_size=nh, unique=True))
-        data.append({"bytes": draw(st.binary(min_size=0, max_size=64)), "deser": f"deser{i}", "holders": sorted(holders)})
+        data.append({"bytes": draw(st.binary(min_size=1, max_size=64)), "deser": f"deser{i}", "holders": sorted(holders)})
     script = []
     for _ in range(draw(st.integers(1, 8))):
         k = draw(st.sampled_from(["transmit", "transmit", "transmit", "fetch", "purge_target", "purge_source"]))
